@@ -336,11 +336,11 @@ Section Frame.
   Qed.
 
   Lemma frame_set_storage s st : e_readonly E = false -> frame s (set_storage st s).
-  Proof. intros RO. unfold frame; cbn. repeat split; auto; intros; congruence. Qed.
+  Proof. intros RO. unfold frame; cbn. split; [auto|]. split; [auto|]. split; [auto|]. intros T. rewrite RO in T. discriminate. Qed.
   Lemma frame_set_transient s st : e_readonly E = false -> frame s (set_transient st s).
-  Proof. intros RO. unfold frame; cbn. repeat split; auto; intros; congruence. Qed.
+  Proof. intros RO. unfold frame; cbn. split; [auto|]. split; [auto|]. split; [auto|]. intros T. rewrite RO in T. discriminate. Qed.
   Lemma frame_set_ext_rw s ret bal ext lg : e_readonly E = false -> frame s (set_ext ret bal ext lg s).
-  Proof. intros RO. unfold frame; cbn. repeat split; auto; intros; congruence. Qed.
+  Proof. intros RO. unfold frame; cbn. split; [auto|]. split; [auto|]. split; [auto|]. intros T. rewrite RO in T. discriminate. Qed.
 
   Lemma calldataload_range cd idx :
     in_range (be_to_Z (map (fun k => byte_at cd (idx + k)) (zseq 0 32))).
@@ -370,6 +370,10 @@ Section Frame.
            | |- in_range (be_to_Z (mem_read _ _ 32)) => apply mload_range
            | |- frame ?s ?s => apply frame_refl
            | H : mem_region (m_msize ?s) _ _ = Some (_, ?sz) |- frame ?s (set_mem _ ?sz ?s) => eapply frame_region; exact H
+           | H1 : mem_region (m_msize ?s) _ _ = Some (_, ?z2), H2 : mem_region ?z2 _ _ = Some (_, ?z3)
+             |- frame ?s (set_mem _ ?z3 ?s) =>
+               apply frame_set_mem; intros; eapply mem_region_limit; [|exact H2];
+               eapply mem_region_limit; [|exact H1]; assumption
            | H : copy_to_memory ?s _ _ _ _ _ = Some ?s' |- frame ?s ?s' => eapply copy_to_memory_frame; exact H
            | H : e_readonly E = false |- frame ?s (set_storage _ ?s) => apply frame_set_storage; exact H
            | H : e_readonly E = false |- frame ?s (set_transient _ ?s) => apply frame_set_transient; exact H
@@ -396,3 +400,724 @@ Section Frame.
     all: post_tac.
   Qed.
 End Frame.
+
+(* ------------------------------------------------------------------------------------------------ *)
+(* the generated table against the model: arity discipline *)
+(* ------------------------------------------------------------------------------------------------ *)
+(* number of operands the implementation function of an instruction takes (its Rust signature);
+   None: the instruction manipulates the stack itself (def_push!, def_stackop!) *)
+Definition sem_arity (i : instr) : option Z :=
+  match i with
+  | I_STOP | I_JUMPDEST | I_INVALID | I_PC | I_MSIZE | I_GAS
+  | I_ADDRESS | I_ORIGIN | I_CALLER | I_CALLVALUE | I_CALLDATASIZE | I_CODESIZE | I_GASPRICE
+  | I_RETURNDATASIZE | I_COINBASE | I_TIMESTAMP | I_NUMBER | I_PREVRANDAO | I_GASLIMIT | I_CHAINID
+  | I_SELFBALANCE | I_BASEFEE => Some 0
+  | I_ISZERO | I_NOT | I_CLZ | I_BALANCE | I_CALLDATALOAD | I_EXTCODESIZE | I_EXTCODEHASH | I_BLOCKHASH
+  | I_MLOAD | I_SLOAD | I_TLOAD | I_JUMP | I_SELFDESTRUCT => Some 1
+  | I_ADD | I_MUL | I_SUB | I_DIV | I_SDIV | I_MOD | I_SMOD | I_EXP | I_SIGNEXTEND
+  | I_LT | I_GT | I_SLT | I_SGT | I_EQ | I_AND | I_OR | I_XOR | I_BYTE | I_SHL | I_SHR | I_SAR
+  | I_KECCAK256 | I_MSTORE | I_MSTORE8 | I_SSTORE | I_TSTORE | I_JUMPI | I_RETURN | I_REVERT | I_LOG0 => Some 2
+  | I_ADDMOD | I_MULMOD | I_CALLDATACOPY | I_CODECOPY | I_RETURNDATACOPY | I_MCOPY | I_CREATE | I_LOG1 => Some 3
+  | I_EXTCODECOPY | I_CREATE2 | I_LOG2 => Some 4
+  | I_LOG3 => Some 5
+  | I_LOG4 | I_DELEGATECALL | I_STATICCALL => Some 6
+  | I_CALL => Some 7
+  | _ => None
+  end.
+
+Inductive rkind := RKPush | RKNone | RKJump | RKExit.
+(* what the implementation function returns: a word, nothing, a new pc, an Output *)
+Definition res_kind (i : instr) : rkind :=
+  match i with
+  | I_STOP | I_RETURN | I_REVERT | I_SELFDESTRUCT => RKExit
+  | I_JUMP | I_JUMPI => RKJump
+  | I_JUMPDEST | I_INVALID | I_CALLDATACOPY | I_CODECOPY | I_EXTCODECOPY | I_RETURNDATACOPY | I_MSTORE
+  | I_MSTORE8 | I_SSTORE | I_TSTORE | I_MCOPY | I_LOG0 | I_LOG1 | I_LOG2 | I_LOG3 | I_LOG4 => RKNone
+  | _ => RKPush
+  end.
+
+Definition pre_eqb (a b : pre_disc) : bool :=
+  match a, b with
+  | PrePopMany, PrePopMany | PreEnsureOne, PreEnsureOne | PreEnsureIgnored, PreEnsureIgnored
+  | PreDelegated, PreDelegated | PreNone, PreNone => true
+  | _, _ => false
+  end.
+Definition post_eqb (a b : post_disc) : bool :=
+  match a, b with
+  | PostPushUnchecked, PostPushUnchecked | PostPushChecked, PostPushChecked
+  | PostDelegated, PostDelegated | PostNone, PostNone => true
+  | _, _ => false
+  end.
+Definition pc_eqb (a b : pc_disc) : bool :=
+  match a, b with
+  | PcNext, PcNext | PcJump, PcJump | PcEnd, PcEnd | PcPushData, PcPushData => true
+  | _, _ => false
+  end.
+
+Definition is_dup (i : instr) : bool :=
+  match i with
+  | I_DUP1 | I_DUP2 | I_DUP3 | I_DUP4 | I_DUP5 | I_DUP6 | I_DUP7 | I_DUP8 | I_DUP9 | I_DUP10 | I_DUP11
+  | I_DUP12 | I_DUP13 | I_DUP14 | I_DUP15 | I_DUP16 => true
+  | _ => false
+  end.
+Definition is_swap (i : instr) : bool :=
+  match i with
+  | I_SWAP1 | I_SWAP2 | I_SWAP3 | I_SWAP4 | I_SWAP5 | I_SWAP6 | I_SWAP7 | I_SWAP8 | I_SWAP9 | I_SWAP10
+  | I_SWAP11 | I_SWAP12 | I_SWAP13 | I_SWAP14 | I_SWAP15 | I_SWAP16 => true
+  | _ => false
+  end.
+Definition is_pop (i : instr) : bool := match i with I_POP => true | _ => false end.
+
+(* The argument that makes `push_unchecked` and the raw-pointer `pop_many` safe, per table row:
+   - an unchecked push happens only after pop_many of >= 1 operands, or after a checked ensure_one;
+   - the number of operands popped is the number the implementation function takes;
+   - what is done with the result (push / nothing / jump / exit) is what the function returns;
+   - DUPn / SWAPn heights are 1..16, PUSHn widths 0..32. *)
+Definition row_ok_generic (r : oprow) : bool :=
+  match sem_arity (op_instr r) with
+  | None => false
+  | Some n =>
+      (match op_pre r with
+       | PrePopMany => (op_pops r =? n)
+       | PreEnsureOne | PreNone => (n =? 0)
+       | _ => false
+       end) &&
+      (match res_kind (op_instr r) with
+       | RKPush =>
+           pc_eqb (op_pc r) PcNext && (op_pushes r =? 1) &&
+           (post_eqb (op_post r) PostPushChecked ||
+            (post_eqb (op_post r) PostPushUnchecked &&
+             ((pre_eqb (op_pre r) PrePopMany && (1 <=? op_pops r)) || pre_eqb (op_pre r) PreEnsureOne)))
+       | RKNone => post_eqb (op_post r) PostNone && pc_eqb (op_pc r) PcNext && (op_pushes r =? 0)
+       | RKJump => post_eqb (op_post r) PostNone && pc_eqb (op_pc r) PcJump && (op_pushes r =? 0)
+       | RKExit => post_eqb (op_post r) PostNone && pc_eqb (op_pc r) PcEnd && (op_pushes r =? 0)
+       end)
+  end.
+
+Definition row_ok (r : oprow) : bool :=
+  (0 <=? op_byte r) && (op_byte r <? 256) && (instr_byte (op_instr r) =? op_byte r) &&
+  match op_kind r with
+  | KStackop =>
+      pre_eqb (op_pre r) PreDelegated && post_eqb (op_post r) PostDelegated && pc_eqb (op_pc r) PcNext &&
+      (is_pop (op_instr r) ||
+       ((is_dup (op_instr r) || is_swap (op_instr r)) && (1 <=? op_arg r) && (op_arg r <=? 16)))
+  | KPush =>
+      pre_eqb (op_pre r) PreDelegated && post_eqb (op_post r) PostDelegated && pc_eqb (op_pc r) PcPushData &&
+      (0 <=? op_arg r) && (op_arg r <=? 32)
+  | _ => row_ok_generic r
+  end.
+
+Fixpoint nodup_z (l : list Z) : bool :=
+  match l with [] => true | x :: r => negb (existsb (Z.eqb x) r) && nodup_z r end.
+
+Definition table_ok : bool :=
+  forallb row_ok opcode_table && nodup_z (map op_byte opcode_table).
+
+(* proved by evaluation of the GENERATED table: a changed arity, a dropped `?` after ensure_one, a
+   push_unchecked in the wrong macro ... make this fail *)
+Lemma table_ok_true : table_ok = true.
+Proof. vm_compute. reflexivity. Qed.
+
+Lemma arity_discipline : forall r, In r opcode_table -> row_ok r = true.
+Proof.
+  pose proof table_ok_true as T. unfold table_ok in T. apply andb_true_iff in T. destruct T as [T _].
+  rewrite forallb_forall in T. exact T.
+Qed.
+
+Lemma stack_size_1024 : STACK_SIZE = 1024.
+Proof. reflexivity. Qed.
+
+Lemma lookup_row_in b r : lookup_row b = Some r -> In r opcode_table /\ op_byte r = b.
+Proof.
+  unfold lookup_row. intros H. apply find_some in H. destruct H as [H1 H2].
+  split; [exact H1|]. apply Z.eqb_eq. exact H2.
+Qed.
+
+Section SemShape.
+  Variable ops : word_ops.
+  Variable E : env.
+
+  Definition kind_of (r : sem_res) : option rkind :=
+    match r with
+    | SemPush _ _ => Some RKPush | SemNone _ => Some RKNone | SemJump _ _ => Some RKJump
+    | SemExit _ _ => Some RKExit | SemFail _ _ => None
+    end.
+
+  Ltac shape_tac :=
+    cbn [sem bin un tern nullary];
+    unfold do_log, do_call, do_create, do_exit, do_jump;
+    cbn [length Nat.eqb negb];
+    repeat match goal with
+           | |- context [match ?x with _ => _ end] =>
+               lazymatch type of x with sem_res => fail | _ => destruct x end
+           | |- context [if ?x then _ else _] => destruct x
+           end.
+
+  (* with the right number of operands the implementation function never reports a model mismatch,
+     and what it returns is of the kind [res_kind] says *)
+  Lemma sem_shape i args s n :
+    sem_arity i = Some n -> zlen args = n ->
+    match sem ops E i args s with
+    | SemFail c _ => c <> EC_MODEL
+    | r => kind_of r = Some (res_kind i)
+    end.
+  Proof.
+    intros A L.
+    destruct i; cbn in A; try discriminate; injection A as <-;
+      destruct args as [|a1 [|a2 [|a3 [|a4 [|a5 [|a6 [|a7 [|a8 ?]]]]]]]];
+      cbv [zlen length] in L; try (exfalso; lia); clear L;
+      shape_tac; cbn; try reflexivity; try (vm_compute; discriminate).
+  Qed.
+End SemShape.
+
+(* ------------------------------------------------------------------------------------------------ *)
+(* one step: well-formedness (stack bound, stack words in range, memory size bound), defined failure
+   classes, read-only frame *)
+(* ------------------------------------------------------------------------------------------------ *)
+Lemma firstn_zlen {A} (l : list A) n :
+  0 <= n <= zlen l -> zlen (firstn (Z.to_nat n) l) = n.
+Proof. unfold zlen. intros H. rewrite firstn_length. lia. Qed.
+Lemma skipn_zlen {A} (l : list A) n :
+  0 <= n <= zlen l -> zlen (skipn (Z.to_nat n) l) = zlen l - n.
+Proof. unfold zlen. intros H. rewrite skipn_length. lia. Qed.
+Lemma zlen_app {A} (l1 l2 : list A) : zlen (l1 ++ l2) = zlen l1 + zlen l2.
+Proof. unfold zlen. rewrite app_length. lia. Qed.
+
+Section Step.
+  Variable ops : word_ops.
+  Variable E : env.
+  Hypothesis Hops : ops_ok ops.
+
+  Definition wf (s : mstate) : Prop :=
+    zlen (m_stack s) <= STACK_SIZE /\ Forall in_range (m_stack s) /\ msize_ok s.
+
+  Definition ro_frame (s s' : mstate) : Prop :=
+    e_readonly E = true ->
+    m_storage s' = m_storage s /\ m_transient s' = m_transient s /\ quiet (m_log s) (m_log s').
+
+  Definition defined_outcome (o : outcome) : Prop :=
+    match o with Failure c => In c DEFINED_FAILURES | _ => True end.
+
+  Definition step_post (s : mstate) (r : step_res) : Prop :=
+    match r with
+    | SNext s' => wf s' /\ ro_frame s s'
+    | SHalt o s' => wf s' /\ ro_frame s s' /\ defined_outcome o
+    end.
+
+  Lemma ro_frame_refl s : ro_frame s s.
+  Proof. unfold ro_frame, quiet. auto. Qed.
+
+  (* pop_many::<S> stays inside the vector: it yields exactly S operands, the former top S items *)
+  Lemma pop_many_in_bounds r stk args stk' :
+    op_pre r = PrePopMany -> 0 <= op_pops r ->
+    take_operands r stk = inr (args, stk') ->
+    stk = args ++ stk' /\ zlen args = op_pops r /\ op_pops r <= zlen stk.
+  Proof.
+    intros P N. unfold take_operands. rewrite P.
+    destruct (zlen stk <? op_pops r) eqn:C; [discriminate|]. apply Z.ltb_ge in C.
+    intros [= <- <-]. split; [symmetry; apply firstn_skipn|]. split; [apply firstn_zlen; lia|exact C].
+  Qed.
+
+  Lemma take_operands_spec r stk :
+    (op_pre r = PrePopMany -> 0 <= op_pops r) ->
+    match take_operands r stk with
+    | inl c => c = EVM_CONTRACT_STACK_UNDERFLOW \/ c = EVM_CONTRACT_STACK_OVERFLOW
+    | inr (args, stk') =>
+        stk = args ++ stk' /\
+        zlen args = (match op_pre r with PrePopMany => op_pops r | _ => 0 end) /\
+        (op_pre r = PreEnsureOne -> zlen stk < STACK_SIZE)
+    end.
+  Proof.
+    intros N. unfold take_operands. destruct (op_pre r) eqn:P.
+    - specialize (N eq_refl). destruct (zlen stk <? op_pops r) eqn:C; [left; reflexivity|]. apply Z.ltb_ge in C.
+      split; [symmetry; apply firstn_skipn|]. split; [apply firstn_zlen; lia|discriminate].
+    - destruct (STACK_SIZE <=? zlen stk) eqn:C; [right; reflexivity|]. apply Z.leb_gt in C.
+      split; [reflexivity|]. split; [reflexivity|auto].
+    - split; [reflexivity|]. split; [reflexivity|discriminate].
+    - split; [reflexivity|]. split; [reflexivity|discriminate].
+    - split; [reflexivity|]. split; [reflexivity|discriminate].
+  Qed.
+
+  Lemma in_def_under : In EVM_CONTRACT_STACK_UNDERFLOW DEFINED_FAILURES. Proof. cbn; tauto. Qed.
+  Lemma in_def_over : In EVM_CONTRACT_STACK_OVERFLOW DEFINED_FAILURES. Proof. cbn; tauto. Qed.
+  Lemma in_def_undef : In EVM_CONTRACT_UNDEFINED_INSTRUCTION DEFINED_FAILURES. Proof. cbn; tauto. Qed.
+
+  Lemma pre_eqb_eq a b : pre_eqb a b = true -> a = b.
+  Proof. destruct a, b; cbn; congruence. Qed.
+  Lemma post_eqb_eq a b : post_eqb a b = true -> a = b.
+  Proof. destruct a, b; cbn; congruence. Qed.
+  Lemma pc_eqb_eq a b : pc_eqb a b = true -> a = b.
+  Proof. destruct a, b; cbn; congruence. Qed.
+
+  Lemma frame_ro s s' : frame E s s' -> ro_frame s s'.
+  Proof. intros (_ & _ & _ & H). exact H. Qed.
+
+  Lemma exec_generic_spec r s :
+    row_ok_generic r = true -> wf s -> step_post s (exec_generic ops E r s).
+  Proof.
+    intros Hok WFs. pose proof WFs as (Hlen & Hrng & Hms). unfold row_ok_generic in Hok.
+    destruct (sem_arity (op_instr r)) as [n|] eqn:AR; [|discriminate].
+    apply andb_true_iff in Hok. destruct Hok as [Hpre Hres].
+    assert (Npops : op_pre r = PrePopMany -> 0 <= op_pops r).
+    { intros P. rewrite P in Hpre. apply Z.eqb_eq in Hpre.
+      destruct (op_instr r); cbn in AR; try discriminate; injection AR as <-; lia. }
+    unfold exec_generic.
+    pose proof (take_operands_spec r (m_stack s) Npops) as TO.
+    destruct (take_operands r (m_stack s)) as [c|[args stk']] eqn:T.
+    { cbn. split; [exact WFs|]. split; [apply ro_frame_refl|].
+      destruct TO as [->| ->]; [apply in_def_under|apply in_def_over]. }
+    destruct TO as (Hsplit & Hargs & Hens).
+    assert (Hrng2 : Forall in_range args /\ Forall in_range stk').
+    { rewrite Hsplit in Hrng. apply Forall_app in Hrng. exact Hrng. }
+    destruct Hrng2 as [Ra Rs].
+    assert (Hn : zlen args = n).
+    { rewrite Hargs. destruct (op_pre r); try discriminate; apply Z.eqb_eq in Hpre; lia. }
+    assert (Hlen' : zlen stk' = zlen (m_stack s) - zlen args).
+    { rewrite Hsplit. rewrite zlen_app. lia. }
+    pose proof (sem_spec ops E Hops (op_instr r) args (set_stack stk' s) Ra) as SP.
+    pose proof (sem_shape ops E (op_instr r) args (set_stack stk' s) n AR Hn) as SH.
+    assert (WF0 : forall s', frame E (set_stack stk' s) s' -> wf s' /\ ro_frame s s').
+    { intros s' (F1 & F2 & F3 & F4). cbn in F1, F2, F3, F4. split.
+      - unfold wf. rewrite F1. split; [pose proof (zlen_nonneg args); lia|]. split; [exact Rs|]. apply F3. exact Hms.
+      - exact F4. }
+    destruct (sem ops E (op_instr r) args (set_stack stk' s)) as [v s'|s'|p s'|o s'|c s'] eqn:SEM; cbn in SP, SH.
+    - (* push *)
+      destruct SP as [Rv Fr]. injection SH as SH. rewrite <- SH in Hres.
+      apply andb_true_iff in Hres. destruct Hres as [Hres Hpost]. apply andb_true_iff in Hres. destruct Hres as [Hpc _].
+      apply pc_eqb_eq in Hpc. rewrite Hpc.
+      destruct (WF0 s' Fr) as [(W1 & W2 & W3) RO]. destruct Fr as (F1 & _).
+      apply orb_true_iff in Hpost. destruct Hpost as [Hc|Hu].
+      + apply post_eqb_eq in Hc. rewrite Hc. unfold push_checked.
+        destruct (STACK_SIZE <=? zlen (m_stack s')) eqn:C.
+        * cbn. split; [exact WFs|]. split; [apply ro_frame_refl|apply in_def_over].
+        * apply Z.leb_gt in C. cbn. split; [|exact RO]. unfold wf; cbn. rewrite zlen_cons.
+          split; [lia|]. split; [constructor; assumption|exact W3].
+      + apply andb_true_iff in Hu. destruct Hu as [Hu Hcond]. apply post_eqb_eq in Hu. rewrite Hu.
+        cbn. split; [|exact RO]. unfold wf; cbn. rewrite zlen_cons. cbn in F1. rewrite F1.
+        split; [|split; [constructor; [assumption|rewrite <- F1; assumption]|exact W3]].
+        apply orb_true_iff in Hcond. destruct Hcond as [Hp|He].
+        * apply andb_true_iff in Hp. destruct Hp as [Hp H1]. apply pre_eqb_eq in Hp. apply Z.leb_le in H1.
+          rewrite Hp in Hargs. lia.
+        * apply pre_eqb_eq in He. specialize (Hens He). rewrite He in Hargs. lia.
+    - (* nothing *)
+      injection SH as SH. rewrite <- SH in Hres.
+      apply andb_true_iff in Hres. destruct Hres as [Hres _]. apply andb_true_iff in Hres. destruct Hres as [Hpost Hpc].
+      apply post_eqb_eq in Hpost. apply pc_eqb_eq in Hpc. rewrite Hpost, Hpc. cbn.
+      destruct (WF0 s' SP) as [(W1 & W2 & W3) RO]. split; [|exact RO]. unfold wf; cbn. auto.
+    - (* jump *)
+      destruct SP as [Fr _]. injection SH as SH. rewrite <- SH in Hres.
+      apply andb_true_iff in Hres. destruct Hres as [Hres _]. apply andb_true_iff in Hres. destruct Hres as [_ Hpc].
+      apply pc_eqb_eq in Hpc. rewrite Hpc. cbn.
+      destruct (WF0 s' Fr) as [(W1 & W2 & W3) RO]. split; [|exact RO]. unfold wf; cbn. auto.
+    - (* exit *)
+      injection SH as SH. rewrite <- SH in Hres.
+      apply andb_true_iff in Hres. destruct Hres as [Hres _]. apply andb_true_iff in Hres. destruct Hres as [_ Hpc].
+      apply pc_eqb_eq in Hpc. rewrite Hpc. cbn.
+      destruct (WF0 s' SP) as [W RO]. split; [exact W|]. split; [exact RO|]. destruct o; exact I || idtac.
+      (* the exits of the modelled instructions are Return / Revert *)
+      exfalso. clear - SEM. destruct (op_instr r); cbn [sem bin un tern nullary] in SEM;
+        unfold bin, un, tern, nullary, do_log, do_call, do_create, do_exit, do_jump in SEM;
+        repeat match type of SEM with
+               | context [match ?x with _ => _ end] => destruct x
+               | context [if ?x then _ else _] => destruct x
+               end; discriminate.
+    - (* failure *)
+      destruct SP as [Fr [Hc|Hc]]; [contradiction|]. cbn.
+      destruct (WF0 s' Fr) as [W RO]. auto.
+  Qed.
+End Step.
+
+Lemma swap_list_len (top : Z) rest k :
+  (k < length rest)%nat ->
+  length (nth k rest 0 :: firstn k rest ++ top :: skipn (S k) rest) = S (length rest).
+Proof.
+  intros H. cbn [length]. rewrite app_length. cbn [length]. rewrite firstn_length, skipn_length. lia.
+Qed.
+Lemma swap_list_forall (P : Z -> Prop) top rest k :
+  P top -> Forall P rest -> (k < length rest)%nat ->
+  Forall P (nth k rest 0 :: firstn k rest ++ top :: skipn (S k) rest).
+Proof.
+  intros Pt Pr H. constructor.
+  - rewrite Forall_forall in Pr. apply Pr. apply nth_In. exact H.
+  - apply Forall_app. split; [apply Forall_take; exact Pr|]. constructor; [exact Pt|apply Forall_drop; exact Pr].
+Qed.
+
+Section Step2.
+  Variable ops : word_ops.
+  Variable E : env.
+  Hypothesis Hops : ops_ok ops.
+
+  Lemma halt_post s c : wf s -> In c DEFINED_FAILURES -> step_post E s (fail c s).
+  Proof. intros W I. cbn. split; [exact W|]. split; [apply ro_frame_refl|exact I]. Qed.
+
+  Lemma next_stack_post s stk p :
+    wf s -> zlen stk <= STACK_SIZE -> Forall in_range stk ->
+    step_post E s (SNext (set_pc p (set_stack stk s))).
+  Proof.
+    intros (W1 & W2 & W3) L F. cbn. split; [|unfold ro_frame, quiet; cbn; auto]. unfold wf; cbn. auto.
+  Qed.
+
+  Lemma exec_stackop_spec r s :
+    row_ok r = true -> op_kind r = KStackop -> wf s -> step_post E s (exec_stackop r s).
+  Proof.
+    intros Hok K WFs. pose proof WFs as (Hlen & Hrng & Hms).
+    unfold row_ok in Hok. rewrite K in Hok.
+    apply andb_true_iff in Hok. destruct Hok as [_ Hok]. apply andb_true_iff in Hok. destruct Hok as [_ Hcase].
+    unfold exec_stackop.
+    destruct (op_instr r); cbn in Hcase; try discriminate.
+    (* DUP1..16 *)
+    1-16: (apply andb_true_iff in Hcase; destruct Hcase as [H1 H16]; apply Z.leb_le in H1; apply Z.leb_le in H16;
+      destruct (op_arg r <=? 0) eqn:C0; [apply Z.leb_le in C0; lia|];
+      destruct (STACK_SIZE <=? zlen (m_stack s)) eqn:C1; [apply halt_post; [exact WFs|apply in_def_over]|];
+      apply Z.leb_gt in C1;
+      destruct (zlen (m_stack s) <? op_arg r) eqn:C2; [apply halt_post; [exact WFs|apply in_def_under]|];
+      apply Z.ltb_ge in C2;
+      apply next_stack_post; [exact WFs|rewrite zlen_cons; lia|];
+      constructor; [|exact Hrng];
+      rewrite Forall_forall in Hrng; apply Hrng; apply nth_In; unfold zlen in C2; lia).
+    1: { (* POP *)
+      destruct (m_stack s) as [|x rest] eqn:ST.
+      - apply halt_post; [exact WFs|apply in_def_under].
+      - apply next_stack_post; [exact WFs| |].
+        + rewrite zlen_cons in Hlen. lia.
+        + inversion Hrng; assumption. }
+    (* SWAP1..16 *)
+    all: (apply andb_true_iff in Hcase; destruct Hcase as [H1 H16]; apply Z.leb_le in H1; apply Z.leb_le in H16;
+      destruct (op_arg r <? 0) eqn:C0; [apply Z.ltb_lt in C0; lia|];
+      destruct (zlen (m_stack s) <=? op_arg r) eqn:C1; [apply halt_post; [exact WFs|apply in_def_under]|];
+      apply Z.leb_gt in C1;
+      destruct (m_stack s) as [|top rest] eqn:ST; [apply halt_post; [exact WFs|apply in_def_under]|];
+      destruct (op_arg r =? 0) eqn:C2; [apply Z.eqb_eq in C2; lia|];
+      rewrite zlen_cons in C1, Hlen; unfold zlen in C1;
+      assert (KL : (Z.to_nat (op_arg r - 1) < length rest)%nat) by lia;
+      inversion Hrng as [|? ? Rt Rr]; subst;
+      apply next_stack_post; [exact WFs| |apply swap_list_forall; assumption];
+      unfold zlen; rewrite swap_list_len by exact KL; unfold zlen in Hlen; lia).
+  Qed.
+
+  Lemma exec_push_spec r s :
+    row_ok r = true -> op_kind r = KPush -> wf s -> step_post E s (exec_push E r s).
+  Proof.
+    intros Hok K WFs. pose proof WFs as (Hlen & Hrng & Hms).
+    unfold row_ok in Hok. rewrite K in Hok.
+    apply andb_true_iff in Hok. destruct Hok as [_ Hok]. apply andb_true_iff in Hok. destruct Hok as [Hok H32].
+    apply andb_true_iff in Hok. destruct Hok as [_ H0]. apply Z.leb_le in H0. apply Z.leb_le in H32.
+    unfold exec_push.
+    destruct ((op_arg r <? 0) || (32 <? op_arg r)) eqn:C.
+    { apply orb_true_iff in C. destruct C as [C|C]; apply Z.ltb_lt in C; lia. }
+    unfold push_checked.
+    destruct (STACK_SIZE <=? zlen (m_stack s)) eqn:C1; [apply halt_post; [exact WFs|apply in_def_over]|].
+    apply Z.leb_gt in C1. cbn. split; [|unfold ro_frame, quiet; cbn; auto]. unfold wf; cbn. rewrite zlen_cons.
+    split; [lia|]. split; [|exact Hms]. constructor; [|exact Hrng].
+    (* a PUSHn value is below 256^n <= 2^256 *)
+    set (bs := map _ _).
+    assert (B : 0 <= be_to_Z bs < 256 ^ Z.of_nat (length bs)).
+    { apply be_to_Z_bound. apply Forall_map_range. intros. apply byte_at_range. }
+    assert (L : Z.of_nat (length bs) = op_arg r).
+    { unfold bs. rewrite map_length. unfold zseq. rewrite zseq_nat_length. lia. }
+    rewrite L in B. unfold in_range, W.
+    assert (256 ^ op_arg r <= 256 ^ 32) by (apply Z.pow_le_mono_r; lia).
+    change (256 ^ 32) with (2 ^ 256) in H. lia.
+  Qed.
+
+  (* every byte either steps or halts with a defined class; the successor is well formed *)
+  Lemma step_spec s : wf s -> step_post E s (step ops E s).
+  Proof.
+    intros WFs. unfold step.
+    destruct (lookup_row (byte_at (code E) (m_pc s))) as [r|] eqn:L.
+    - apply lookup_row_in in L. destruct L as [Hin _].
+      pose proof (arity_discipline r Hin) as Hok.
+      unfold exec_row. destruct (op_kind r) eqn:K;
+        try (apply exec_generic_spec; [exact Hops| |exact WFs];
+             unfold row_ok in Hok; rewrite K in Hok; apply andb_true_iff in Hok; apply Hok).
+      + apply exec_push_spec; assumption.
+      + apply exec_stackop_spec; assumption.
+    - apply halt_post; [exact WFs|apply in_def_undef].
+  Qed.
+End Step2.
+
+(* ------------------------------------------------------------------------------------------------ *)
+(* jump-destination analysis (Bytecode::new) against the specification's instruction boundaries *)
+(* ------------------------------------------------------------------------------------------------ *)
+(* width of the immediate data of the instruction with opcode byte b (Yellow Paper: PUSH1..PUSH32 are
+   0x60..0x7f and carry b - 0x5f bytes) *)
+Definition pushw (b : Z) : nat := if (96 <=? b) && (b <=? 127) then Z.to_nat (b - 95) else 0%nat.
+
+Definition nbyte (code : list Z) (i : nat) : Z := (nth i code 0) mod 256.
+
+(* instruction boundaries: position 0, and the position after an instruction and its immediate data *)
+Inductive boundary (code : list Z) : nat -> Prop :=
+| bnd_0 : boundary code 0
+| bnd_S i : boundary code i -> (i < length code)%nat -> boundary code (i + 1 + pushw (nbyte code i)).
+
+(* the same notion relative to a suffix: [rb k l j]: after skipping k data bytes of l, j is a boundary *)
+Inductive rb : nat -> list Z -> nat -> Prop :=
+| rb_here l : rb 0 l 0
+| rb_skip k b l j : rb k l j -> rb (S k) (b :: l) (S j)
+| rb_step b l j : rb (pushw (b mod 256)) l j -> rb 0 (b :: l) (S j).
+
+Lemma jd_bytes : B_JUMPDEST = 91 /\ B_PUSH1 = 96 /\ B_PUSH32 = 127.
+Proof. vm_compute. auto. Qed.
+
+Lemma analyse_skip_eq b :
+  (if (B_PUSH1 <=? b) && (b <=? B_PUSH32) then Z.to_nat (b - B_PUSH1 + 1) else 0%nat) = pushw b.
+Proof.
+  destruct jd_bytes as (_ & -> & ->). unfold pushw.
+  destruct ((96 <=? b) && (b <=? 127)); [f_equal; lia|reflexivity].
+Qed.
+
+Lemma analyse_spec : forall l k j,
+  nth j (analyse l k) false = true <-> (j < length l)%nat /\ rb k l j /\ (nth j l 0) mod 256 = 91.
+Proof.
+  destruct jd_bytes as (J & P1 & P32).
+  induction l as [|b l IH]; intros k j.
+  - cbn. split; [destruct j; discriminate|intros [H _]; lia].
+  - cbn [analyse]. destruct k as [|k].
+    + (* at an instruction *)
+      destruct (b mod 256 =? B_JUMPDEST) eqn:EJ.
+      * apply Z.eqb_eq in EJ. rewrite J in EJ.
+        destruct j as [|j]; cbn [nth length].
+        -- split; [intros _; split; [lia|split; [constructor|exact EJ]]|auto].
+        -- rewrite IH. split.
+           ++ intros (A & B & C). split; [lia|]. split; [|exact C].
+              apply rb_step. unfold pushw. rewrite EJ. cbn. exact B.
+           ++ intros (A & B & C). split; [lia|]. split; [|exact C].
+              inversion B as [| |? ? ? HB]; subst. unfold pushw in HB. rewrite EJ in HB. cbn in HB. exact HB.
+      * apply Z.eqb_neq in EJ. rewrite J in EJ.
+        assert (R : forall kk, (if (B_PUSH1 <=? b mod 256) && (b mod 256 <=? B_PUSH32)
+                                then false :: analyse l (Z.to_nat (b mod 256 - B_PUSH1 + 1))
+                                else false :: analyse l 0) = false :: analyse l kk ->
+                               kk = pushw (b mod 256) -> True) by auto.
+        clear R.
+        assert (EQ : (if (B_PUSH1 <=? b mod 256) && (b mod 256 <=? B_PUSH32)
+                      then false :: analyse l (Z.to_nat (b mod 256 - B_PUSH1 + 1))
+                      else false :: analyse l 0) = false :: analyse l (pushw (b mod 256))).
+        { rewrite <- analyse_skip_eq. destruct ((B_PUSH1 <=? b mod 256) && (b mod 256 <=? B_PUSH32)); reflexivity. }
+        rewrite EQ. clear EQ.
+        destruct j as [|j]; cbn [nth length].
+        -- split; [discriminate|]. intros (_ & _ & C). contradiction.
+        -- rewrite IH. split.
+           ++ intros (A & B & C). split; [lia|]. split; [apply rb_step; exact B|exact C].
+           ++ intros (A & B & C). split; [lia|]. split; [|exact C]. inversion B; subst. assumption.
+    + (* inside push data *)
+      destruct j as [|j]; cbn [nth length].
+      * split; [discriminate|]. intros (_ & B & _). inversion B.
+      * rewrite IH. split.
+        -- intros (A & B & C). split; [lia|]. split; [apply rb_skip; exact B|exact C].
+        -- intros (A & B & C). split; [lia|]. split; [|exact C]. inversion B; subst. assumption.
+Qed.
+
+(* suffix-relative boundaries are boundaries of the whole code *)
+Lemma rb_boundary : forall k l j, rb k l j ->
+  forall pre, boundary (pre ++ l) (length pre + k) -> boundary (pre ++ l) (length pre + j).
+Proof.
+  induction 1 as [l|k b l j H IH|b l j H IH]; intros pre B.
+  - exact B.
+  - specialize (IH (pre ++ [b])). rewrite <- app_assoc in IH. cbn in IH. rewrite app_length in IH. cbn in IH.
+    replace (length pre + S j)%nat with (length pre + 1 + j)%nat by lia. apply IH.
+    replace (length pre + 1 + k)%nat with (length pre + S k)%nat by lia. exact B.
+  - specialize (IH (pre ++ [b])). rewrite <- app_assoc in IH. cbn in IH. rewrite app_length in IH. cbn in IH.
+    replace (length pre + S j)%nat with (length pre + 1 + j)%nat by lia. apply IH.
+    rewrite Nat.add_0_r in B.
+    pose proof (bnd_S (pre ++ b :: l) (length pre) B) as S.
+    assert (NB : nbyte (pre ++ b :: l) (length pre) = b mod 256).
+    { unfold nbyte. rewrite app_nth2 by lia. rewrite Nat.sub_diag. reflexivity. }
+    rewrite NB in S. apply S. rewrite app_length. cbn. lia.
+Qed.
+
+Lemma rb_k_k : forall k l, (k <= length l)%nat -> rb k l k.
+Proof.
+  induction k; intros l H; [constructor|].
+  destruct l as [|b l]; [cbn in H; lia|]. apply rb_skip. apply IHk. cbn in H. lia.
+Qed.
+
+(* stepping over one instruction, relative form *)
+Lemma rb_advance : forall k l j, rb k l j ->
+  (j < length l)%nat ->
+  (j + 1 + pushw (nbyte l j) <= length l)%nat ->
+  rb k l (j + 1 + pushw (nbyte l j)).
+Proof.
+  unfold nbyte. induction 1 as [l|k b l j H IH|b l j H IH]; intros Hj Hend.
+  - destruct l as [|b l]; [cbn in Hj; lia|]. cbn [nth] in *. cbn [Nat.add].
+    apply rb_step. apply rb_k_k. cbn in Hend. lia.
+  - cbn [nth length] in *. cbn [Nat.add]. apply rb_skip. apply IH; lia.
+  - cbn [nth length] in *. cbn [Nat.add]. apply rb_step. apply IH; lia.
+Qed.
+
+Lemma boundary_rb code i : boundary code i -> (i <= length code)%nat -> rb 0 code i.
+Proof.
+  induction 1 as [|i B IH Hi]; intros Hle; [constructor|].
+  unfold nbyte in *. apply rb_advance; [apply IH; lia|exact Hi|exact Hle].
+Qed.
+
+Lemma znth_b_nth l i : 0 <= i -> znth_b l i = nth (Z.to_nat i) l false.
+Proof.
+  revert i. induction l as [|x l IH]; intros i Hi; cbn.
+  - destruct (Z.to_nat i); reflexivity.
+  - destruct (i =? 0) eqn:C.
+    + apply Z.eqb_eq in C. subst. reflexivity.
+    + apply Z.eqb_neq in C. rewrite IH by lia.
+      replace (Z.to_nat i) with (S (Z.to_nat (i - 1))) by lia. reflexivity.
+Qed.
+Lemma znth_nth l i : 0 <= i -> znth l i = nth (Z.to_nat i) l 0.
+Proof.
+  revert i. induction l as [|x l IH]; intros i Hi; cbn.
+  - destruct (Z.to_nat i); reflexivity.
+  - destruct (i =? 0) eqn:C.
+    + apply Z.eqb_eq in C. subst. reflexivity.
+    + apply Z.eqb_neq in C. rewrite IH by lia.
+      replace (Z.to_nat i) with (S (Z.to_nat (i - 1))) by lia. reflexivity.
+Qed.
+
+(* Bytecode::valid_jump_destination accepts exactly the JUMPDEST bytes that sit on an instruction
+   boundary: push data is excluded, a truncated trailing PUSH is handled *)
+Theorem jumpdest_analysis_correct code i :
+  valid_jumpdest code i = true <->
+  0 <= i < zlen code /\ byte_at code i = 91 /\ boundary code (Z.to_nat i).
+Proof.
+  unfold valid_jumpdest, byte_at, zlen. split.
+  - intros H. apply andb_true_iff in H. destruct H as [H0 H]. apply Z.leb_le in H0.
+    rewrite znth_b_nth in H by exact H0. apply analyse_spec in H. destruct H as (A & B & C).
+    split; [lia|]. split; [rewrite znth_nth by exact H0; exact C|].
+    apply (rb_boundary 0 code (Z.to_nat i) B []); constructor.
+  - intros ((H0 & H1) & C & B). apply andb_true_iff. split; [apply Z.leb_le; exact H0|].
+    rewrite znth_b_nth by exact H0. apply analyse_spec. split; [lia|].
+    split; [apply boundary_rb; [exact B|lia]|rewrite <- znth_nth by exact H0; exact C].
+Qed.
+
+(* ------------------------------------------------------------------------------------------------ *)
+(* whole runs *)
+(* ------------------------------------------------------------------------------------------------ *)
+Section Run.
+  Variable ops : word_ops.
+  Variable E : env.
+  Hypothesis Hops : ops_ok ops.
+
+  Definition final (r : run_res) : mstate := match r with Done _ s | OutOfFuel s => s end.
+
+  (* nothing a static context forbids has happened between s and s' *)
+  Definition ro_multi (s s' : mstate) : Prop :=
+    e_readonly E = true ->
+    m_storage s' = m_storage s /\ m_transient s' = m_transient s /\
+    (forall e, In e (m_log s') -> In e (m_log s) \/ is_effect e = false).
+
+  Lemma ro_multi_refl s : ro_multi s s.
+  Proof. unfold ro_multi. auto. Qed.
+
+  Lemma ro_multi_step s s1 s2 : ro_frame E s s1 -> ro_multi s1 s2 -> ro_multi s s2.
+  Proof.
+    intros F M RO. destruct (F RO) as (A1 & A2 & A3). destruct (M RO) as (B1 & B2 & B3).
+    split; [congruence|]. split; [congruence|].
+    intros e He. destruct (B3 e He) as [H|H]; [|auto].
+    destruct A3 as [A3|(e0 & A3 & Q)]; rewrite A3 in H; [auto|].
+    destruct H as [<-|H]; auto.
+  Qed.
+
+  Theorem run_inv : forall fuel s, wf s ->
+    wf (final (run ops E fuel s)) /\ ro_multi s (final (run ops E fuel s)) /\
+    match run ops E fuel s with Done o _ => defined_outcome o | OutOfFuel _ => True end.
+  Proof.
+    induction fuel as [|f IH]; intros s W; cbn [run].
+    - destruct (codelen E <=? m_pc s); cbn; auto using ro_multi_refl.
+    - destruct (codelen E <=? m_pc s); [cbn; auto using ro_multi_refl|].
+      pose proof (step_spec ops E Hops s W) as SP.
+      destruct (step ops E s) as [s1|o s1]; cbn in SP.
+      + destruct SP as [W1 F1]. destruct (IH s1 W1) as (A & B & C).
+        split; [exact A|]. split; [eapply ro_multi_step; eauto|exact C].
+      + destruct SP as (W1 & F1 & D). cbn. split; [exact W1|]. split; [|exact D].
+        eapply ro_multi_step; [exact F1|apply ro_multi_refl].
+  Qed.
+
+  Lemma wf_init storage bal ext : wf (init_state storage bal ext).
+  Proof.
+    unfold wf, init_state, msize_ok, MEM_LIMIT; cbn. split; [unfold STACK_SIZE; lia|].
+    split; [constructor|]. split; [lia|]. apply Z.pow_nonneg. lia.
+  Qed.
+
+  (* the stack never holds more than STACK_SIZE words, and every word is below 2^256, in every state
+     a run can end or be interrupted in *)
+  Theorem stack_bound_inv fuel s :
+    wf s ->
+    zlen (m_stack (final (run ops E fuel s))) <= STACK_SIZE /\
+    Forall in_range (m_stack (final (run ops E fuel s))).
+  Proof. intros W. destruct (run_inv fuel s W) as ((A & B & _) & _). auto. Qed.
+
+  (* no stuck state: every step either yields a well-formed successor or halts with Return, Revert or
+     one of the defined failure codes *)
+  Theorem step_total s :
+    wf s ->
+    (exists s', step ops E s = SNext s' /\ wf s') \/
+    (exists o s', step ops E s = SHalt o s' /\ defined_outcome o).
+  Proof.
+    intros W. pose proof (step_spec ops E Hops s W) as SP.
+    destruct (step ops E s) as [s1|o s1]; cbn in SP; [left|right]; eauto.
+    - exists s1. tauto.
+    - exists o, s1. tauto.
+  Qed.
+
+  (* ---- fuel ---- *)
+  Inductive nsteps : nat -> mstate -> mstate -> Prop :=
+  | ns_0 s : nsteps 0 s s
+  | ns_S n s s1 s2 : m_pc s < codelen E -> step ops E s = SNext s1 -> nsteps n s1 s2 -> nsteps (S n) s s2.
+
+  (* a run that is interrupted has executed exactly [fuel] instructions and could go on *)
+  Theorem run_out_of_fuel fuel s s' :
+    run ops E fuel s = OutOfFuel s' -> nsteps fuel s s' /\ m_pc s' < codelen E.
+  Proof.
+    revert s. induction fuel as [|f IH]; intros s; cbn [run].
+    - destruct (codelen E <=? m_pc s) eqn:C; [discriminate|]. apply Z.leb_gt in C.
+      intros [= <-]. split; [constructor|exact C].
+    - destruct (codelen E <=? m_pc s) eqn:C; [discriminate|]. apply Z.leb_gt in C.
+      destruct (step ops E s) as [s1|o s1] eqn:S; [|discriminate].
+      intros H. destruct (IH s1 H) as [N P]. split; [econstructor; eauto|exact P].
+  Qed.
+
+  (* a run that ends keeps its result whatever extra fuel it is given *)
+  Theorem run_fuel_monotone fuel s o s' :
+    run ops E fuel s = Done o s' -> forall extra, run ops E (fuel + extra) s = Done o s'.
+  Proof.
+    revert s. induction fuel as [|f IH]; intros s H extra.
+    - cbn [run] in H. destruct (codelen E <=? m_pc s) eqn:C; [|discriminate].
+      destruct (0 + extra)%nat; cbn [run]; rewrite C; exact H.
+    - cbn [Nat.add run] in *. destruct (codelen E <=? m_pc s) eqn:C; [exact H|].
+      destruct (step ops E s) as [s1|o1 s1]; [apply IH; exact H|exact H].
+  Qed.
+
+  Theorem run_terminates_or_fuel fuel s :
+    (exists o s', run ops E fuel s = Done o s' /\ forall extra, run ops E (fuel + extra) s = Done o s') \/
+    (exists s', run ops E fuel s = OutOfFuel s' /\ nsteps fuel s s' /\ m_pc s' < codelen E).
+  Proof.
+    destruct (run ops E fuel s) as [o s'|s'] eqn:R; [left|right].
+    - exists o, s'. split; [reflexivity|]. apply run_fuel_monotone. exact R.
+    - exists s'. split; [reflexivity|]. apply run_out_of_fuel. exact R.
+  Qed.
+
+  Lemma run_pow_spec : forall n s, run_pow ops E n s = run ops E (2 ^ n) s.
+  Proof.
+    assert (SPLIT : forall a b s, run ops E (a + b) s =
+              match run ops E a s with OutOfFuel s' => run ops E b s' | r => r end).
+    { induction a as [|a IH]; intros b s.
+      - cbn [Nat.add run]. destruct (codelen E <=? m_pc s) eqn:C; [|reflexivity].
+        destruct b; cbn [run]; rewrite C; reflexivity.
+      - cbn [Nat.add run]. destruct (codelen E <=? m_pc s); [reflexivity|].
+        destruct (step ops E s); [apply IH|reflexivity]. }
+    induction n as [|n IH]; intros s; [reflexivity|].
+    cbn [run_pow]. rewrite IH. replace (2 ^ S n)%nat with (2 ^ n + 2 ^ n)%nat by (cbn; lia).
+    rewrite SPLIT. destruct (run ops E (2 ^ n) s); [reflexivity|apply IH].
+  Qed.
+
+  (* ---- read-only ---- *)
+  (* in a static context a run changes neither storage nor transient storage, and every request it
+     makes to the outside world is a call without value: no log, no value transfer, no create, no
+     selfdestruct *)
+  Theorem readonly_no_effect fuel storage bal ext :
+    e_readonly E = true ->
+    let s' := final (run ops E fuel (init_state storage bal ext)) in
+    m_storage s' = storage /\ m_transient s' = ∅ /\ Forall (fun e => is_effect e = false) (m_log s').
+  Proof.
+    intros RO. cbn zeta.
+    destruct (run_inv fuel (init_state storage bal ext) (wf_init storage bal ext)) as (_ & M & _).
+    destruct (M RO) as (A & B & C). split; [exact A|]. split; [exact B|].
+    apply Forall_forall. intros e He. destruct (C e He) as [H|H]; [cbn in H; contradiction|exact H].
+  Qed.
+End Run.
